@@ -620,3 +620,36 @@ def map_header_order(rep, rule, prog, cg, names=('binary', 'binary_le', 'binary_
                 rep.ok(rule, key, 'key_type from the first type byte, value_type from the second', b.loc())
             else:
                 rep.bad(rule, key, b.loc(), '%s %s read_map_begin takes value_type from the first type byte and key_type from the second: the skipper then walks map<K, V> as map<V, K>' % (fname, label))
+
+
+def zero_copy_keeps_prefix(rep, rule, prog, cg, names=('binary', 'binary_le', 'compact', 'binary_unsafe')):
+    """LinkedBytes writers: a payload linked in without copying (insert / insert_faststr) is still preceded on the wire by
+    its length, i.e. in every method whose BytesMut sibling starts with a length prefix the insert is dominated by the call
+    that writes the prefix (the zero-copy branch returns early, so a prefix written only in the copy branch is lost)"""
+    n = 0
+    for fname in names:
+        fam = Fam(prog, cg, fname)
+        for name, l in sorted(fam.L.items()):
+            w = fam.W.get(name)
+            if w is None:
+                continue
+            inserts = [cs for cs in l.calls() if re.search(r'linkedbytes::LinkedBytes::(insert|insert_faststr)$', cs.callee)]
+            if not inserts:
+                continue
+            iw = fam.io(w, fam.name == 'binary_unsafe')
+            first = iw[0] if iw else None
+            prefixed = bool(first) and ((first[1] == 'fix' and first[2] in ('i32', 'u32')) or first[1] == 'varint')
+            for cs in inserts:
+                n += 1
+                key = '%s|%s|%s|%s' % (rule, fname, name, cs.name)
+                if not prefixed:
+                    rep.ok(rule, key, 'the BytesMut sibling writes no length prefix either (payload only)', cs.loc())
+                    continue
+                dom = [o for o in l.calls() if o.bb != cs.bb and l.dominates(o.bb, cs.bb) and codec.is_self(l, o.arg(0)) if o.t['args']
+                       and (o.name in ('write_i32', 'write_varint', 'write_u32') or (codec.leaf_token(o) or ('',))[0] == 'w' and (codec.leaf_token(o) + ('', ''))[1] in ('fix', 'varint'))]
+                if dom:
+                    rep.ok(rule, key, 'length prefix (%s) is written on every path to the insert' % dom[0].name, cs.loc())
+                else:
+                    rep.bad(rule, key, cs.loc(), '%s LinkedBytes %s links the payload in without a length prefix having been written on that path (the BytesMut writer starts with %s): the bytes are not a valid encoding and the reader takes payload bytes for the length' % (fname, name, first))
+    if n < 2 * len(names):
+        rep.anchor_missing(rule, 'zero-copy insert sites in LinkedBytes writers (found %d)' % n)
